@@ -144,7 +144,7 @@ func setupUniverse(timeT types.Type) {
 		fsig1 := types.NewSignatureType(nil, nil, nil, types.NewTuple(v("i", tb)), types.NewTuple(v("", bt)), false)
 		types.Universe.Insert(types.NewFunc(token.NoPos, nil, "all__", types.NewSignatureType(nil, nil, []*types.TypeParam{tb}, types.NewTuple(v("f", fsig1)), types.NewTuple(v("", bt)), false)))
 	}
-	for _, q := range []string{"forall__", "exists__"} {
+	for _, q := range []string{"forall__", "exists__", "forallq__"} {
 		sig := types.NewSignatureType(nil, nil, nil, types.NewTuple(v("lo", it), v("hi", it), v("f", fsig)), types.NewTuple(v("", bt)), false)
 		types.Universe.Insert(types.NewFunc(token.NoPos, nil, q, sig))
 	}
